@@ -3,6 +3,8 @@
 From WC Require Import Str Spec WcParse.
 From WC.Gen Require Import Consts.
 From WC.Proofs Require Import SpecLemmas.
+(* the committed snapshot of the regex source texts (RE_NO_DIR, RE_WIN_NO_DIR) the NODIR filter of the list model stands for; a changed text breaks this import *)
+From WC.Proofs Require Pinned_wcparse_nodir.
 
 (* sanity of the executable spec (non-vacuity): the examples of the property text *)
 Example C02_star_not_empty_segment :
